@@ -2512,7 +2512,7 @@ alu_name = {'ANDS': 0, 'EORS': 1, 'LSLS': 2, 'LSRS': 3,
             'ORRS': 12, 'MULS': 13, 'BICS': 14, 'MVNS': 15}
 bs_alu_name = bs_name(l=4, name=alu_name)
 
-hiregop_name = {'ADDS': 0, 'CMP': 1, 'MOV': 2}
+hiregop_name = {'ADD': 0, 'CMP': 1, 'MOV': 2}
 bs_hiregop_name = bs_name(l=2, name=hiregop_name)
 
 ldr_str_name = {'STR': 0, 'LDR': 1}
